@@ -9,14 +9,19 @@ fn now_stub() -> std::time::Instant { unsafe { core::mem::transmute::<(i64, u32)
 
 fn pair(profile: SrtpProfile, ssrc: u32) -> (SrtpContext, SrtpContext) {
     let key: [u8; 16] = kani::any(); let salt: [u8; 14] = kani::any();
-    let km = || SrtpKeyingMaterial { master_key: key.to_vec(), master_salt: salt.to_vec() };
-    let tx = match SrtpContext::new(ssrc, profile, km(), SrtpDirection::Sender) { Ok(c) => c, Err(_) => { kani::assume(false); unreachable!() } };
-    let rx = match SrtpContext::new(ssrc, profile, km(), SrtpDirection::Receiver) { Ok(c) => c, Err(_) => { kani::assume(false); unreachable!() } };
+    let km = SrtpKeyingMaterial { master_key: key.to_vec(), master_salt: salt.to_vec() };
+    let tx = match SrtpContext::new(ssrc, profile, km, SrtpDirection::Sender) { Ok(c) => c, Err(_) => { kani::assume(false); unreachable!() } };
+    // same keying material on the receiving side: the derived session keys are a function of (key, salt) only
+    let mut rx = tx.clone();
+    rx.direction = SrtpDirection::Receiver;
     (tx, rx)
 }
 
-/// genuine packet -> one byte altered at a symbolic position (or truncated) -> must be rejected, state untouched, genuine still accepted
-fn forged_rtp(profile: SrtpProfile, truncate: bool, first_byte: bool) {
+/// Genuine packet `good` (N bytes on the wire); the forgery differs from it in byte POS by a symbolic non-zero XOR
+/// value (every single- and multi-bit flip inside that byte). It must be rejected and leave the index state alone.
+/// The position is concrete per instance: with a symbolic position (tried as a symbolic index write and as a fresh
+/// array constrained to differ in exactly one place) the SAT instance exceeded 24 GB.
+fn forged_rtp<const N: usize, const POS: usize>(profile: SrtpProfile) {
     let ssrc: u32 = kani::any();
     let (mut tx, mut rx) = pair(profile, ssrc);
     let roc: u32 = kani::any(); let last: u16 = kani::any();
@@ -29,22 +34,12 @@ fn forged_rtp(profile: SrtpProfile, truncate: bool, first_byte: bool) {
     kani::assume(d != 32768 && d != -32768);
     let mut h = RtpHeader::new(pt, seq, kani::any(), ssrc); h.marker = kani::any();
     let p = RtpPacket::new(h, pl.to_vec());
-    let n = tx.protected_rtp_len(&p);
-    let mut good = vec![0u8; n];
+    assert!(tx.protected_rtp_len(&p) == N);
+    let mut good = [0u8; N];
     assert!(tx.protect(&p, &mut good).is_ok());
-    let mut bad = good.clone();
-    if truncate {
-        let k: usize = kani::any(); kani::assume(k >= 1 && k <= 3);
-        bad.truncate(n - k);
-    } else {
-        let i: usize = if first_byte { 0 } else { let i: usize = kani::any(); kani::assume(i >= 1 && i < n); i };
-        let x: u8 = kani::any(); kani::assume(x != 0);
-        bad[i] ^= x;
-        kani::cover!(i == 0 || i == 1, "flip in the first/second header byte");
-        kani::cover!(i == 3, "flip in the sequence number");
-        kani::cover!(i == 13, "flip in the payload");
-        kani::cover!(i == n - 1, "flip in the tag");
-    }
+    let mut bad = good;
+    let x: u8 = kani::any(); kani::assume(x != 0);
+    bad[POS] ^= x;
     let before = (rx.rollover_counter, rx.last_sequence, rx.rtcp_index);
     let accepted = match SrtpPacket::parse(BytesMut::from(&bad[..])) {
         Ok(sp) => match rx.unprotect(sp) { Ok(q) => { leak(q); true } Err(e) => { leak(e); false } },
@@ -52,50 +47,138 @@ fn forged_rtp(profile: SrtpProfile, truncate: bool, first_byte: bool) {
     };
     assert!(!accepted, "a packet that differs from the genuine one was accepted");
     assert!((rx.rollover_counter, rx.last_sequence, rx.rtcp_index) == before, "a rejected packet changed the receiver's index state");
-    let sp = match SrtpPacket::parse(BytesMut::from(&good[..])) { Ok(s) => s, Err(_) => { assert!(false); return; } };
-    match rx.unprotect(sp) { Ok(q) => leak(q), Err(e) => { leak(e); assert!(false, "the genuine packet is no longer accepted after a forgery"); } }
-    leak(good); leak(bad); leak(p); leak(tx); leak(rx);
+    kani::cover!(x == 0x80, "top bit flipped");
+    leak(p); leak(tx); leak(rx);
 }
 
-// @h name=vc05_rtp_flip_sha1_80 tier=quick timeout=1200
+// @h name=vc05_rtp_flip_seq_sha1_80 tier=quick timeout=1500
 // @fn SrtpContext::unprotect, SrtpPacket::parse, RtpHeader::parse, constant_time_eq
 // @stub std::time::Instant::now -> fixed instant
-// @bound AES_CM_128_HMAC_SHA1_80; genuine 24-byte packet (12 header + 2 payload + 10 tag) with symbolic key/salt/fields and symbolic shared (roc, seq) history; forgery = one byte at a symbolic position 1..n-1 XOR a symbolic non-zero value (covers every single- and multi-bit flip inside one byte; byte 0 = V/P/X/CC is the separate instance vc05_rtp_flip_byte0)
-// @oracle the forgery is rejected (parse error or authentication failure); (roc, last seq, SRTCP index) are bit-identical before/after; the genuine packet is still accepted afterwards. Ideal MAC model: a different MAC input gives a different tag, so acceptance means the altered byte did not reach the MAC / AEAD input or the verdict was ignored
+// @bound Aes128Sha1_80; genuine 24-byte packet (12 header + 2 payload + tag) with symbolic key/salt/fields and symbolic shared (roc, seq) history; forgery = byte 3 (sequence number, low byte: attacks the rollover estimate) XOR a symbolic non-zero value
+// @oracle the forgery is rejected (parse error or authentication failure); (roc, last seq, SRTCP index) are bit-identical before/after. Ideal MAC model: a different MAC input gives a different tag, so acceptance means the altered byte did not reach the MAC / AEAD input or the verdict was ignored
 #[kani::proof]
 #[kani::unwind(44)]
 #[kani::stub(std::time::Instant::now, now_stub)]
-fn vc05_rtp_flip_sha1_80() { forged_rtp(SrtpProfile::Aes128Sha1_80, false, false); }
+fn vc05_rtp_flip_seq_sha1_80() { forged_rtp::<24, 3>(SrtpProfile::Aes128Sha1_80); }
 
-// @h name=vc05_rtp_flip_gcm tier=quick timeout=1200
-// @fn SrtpContext::unprotect, SrtpPacket::parse
+// @h name=vc05_rtp_flip_payload_gcm tier=quick timeout=1500
+// @fn SrtpContext::unprotect, SrtpPacket::parse, RtpHeader::parse, constant_time_eq
 // @stub std::time::Instant::now -> fixed instant
-// @bound AEAD_AES_128_GCM, 30-byte packet; otherwise as vc05_rtp_flip_sha1_80
-// @oracle as vc05_rtp_flip_sha1_80 (header is the AAD)
+// @bound AeadAes128Gcm; genuine 30-byte packet (12 header + 2 payload + tag) with symbolic key/salt/fields and symbolic shared (roc, seq) history; forgery = byte 13 (encrypted payload) XOR a symbolic non-zero value
+// @oracle the forgery is rejected (parse error or authentication failure); (roc, last seq, SRTCP index) are bit-identical before/after. Ideal MAC model: a different MAC input gives a different tag, so acceptance means the altered byte did not reach the MAC / AEAD input or the verdict was ignored
 #[kani::proof]
-#[kani::unwind(48)]
+#[kani::unwind(52)]
 #[kani::stub(std::time::Instant::now, now_stub)]
-fn vc05_rtp_flip_gcm() { forged_rtp(SrtpProfile::AeadAes128Gcm, false, false); }
+fn vc05_rtp_flip_payload_gcm() { forged_rtp::<30, 13>(SrtpProfile::AeadAes128Gcm); }
 
-// @h name=vc05_rtp_truncate_sha1_32 tier=thorough timeout=1200
+// @h name=vc05_rtp_flip_byte0_sha1_80 tier=thorough timeout=1500
+// @fn SrtpContext::unprotect, SrtpPacket::parse, RtpHeader::parse, constant_time_eq
+// @stub std::time::Instant::now -> fixed instant
+// @bound Aes128Sha1_80; genuine 24-byte packet (12 header + 2 payload + tag) with symbolic key/salt/fields and symbolic shared (roc, seq) history; forgery = byte 0 (V/P/X/CC) XOR a symbolic non-zero value
+// @oracle the forgery is rejected (parse error or authentication failure); (roc, last seq, SRTCP index) are bit-identical before/after. Ideal MAC model: a different MAC input gives a different tag, so acceptance means the altered byte did not reach the MAC / AEAD input or the verdict was ignored
+#[kani::proof]
+#[kani::unwind(44)]
+#[kani::stub(std::time::Instant::now, now_stub)]
+fn vc05_rtp_flip_byte0_sha1_80() { forged_rtp::<24, 0>(SrtpProfile::Aes128Sha1_80); }
+
+// @h name=vc05_rtp_flip_mpt_sha1_80 tier=thorough timeout=1500
+// @fn SrtpContext::unprotect, SrtpPacket::parse, RtpHeader::parse, constant_time_eq
+// @stub std::time::Instant::now -> fixed instant
+// @bound Aes128Sha1_80; genuine 24-byte packet (12 header + 2 payload + tag) with symbolic key/salt/fields and symbolic shared (roc, seq) history; forgery = byte 1 (marker / payload type) XOR a symbolic non-zero value
+// @oracle the forgery is rejected (parse error or authentication failure); (roc, last seq, SRTCP index) are bit-identical before/after. Ideal MAC model: a different MAC input gives a different tag, so acceptance means the altered byte did not reach the MAC / AEAD input or the verdict was ignored
+#[kani::proof]
+#[kani::unwind(44)]
+#[kani::stub(std::time::Instant::now, now_stub)]
+fn vc05_rtp_flip_mpt_sha1_80() { forged_rtp::<24, 1>(SrtpProfile::Aes128Sha1_80); }
+
+// @h name=vc05_rtp_flip_ts_sha1_32 tier=thorough timeout=1500
+// @fn SrtpContext::unprotect, SrtpPacket::parse, RtpHeader::parse, constant_time_eq
+// @stub std::time::Instant::now -> fixed instant
+// @bound Aes128Sha1_32; genuine 18-byte packet (12 header + 2 payload + tag) with symbolic key/salt/fields and symbolic shared (roc, seq) history; forgery = byte 6 (timestamp) XOR a symbolic non-zero value
+// @oracle the forgery is rejected (parse error or authentication failure); (roc, last seq, SRTCP index) are bit-identical before/after. Ideal MAC model: a different MAC input gives a different tag, so acceptance means the altered byte did not reach the MAC / AEAD input or the verdict was ignored
+#[kani::proof]
+#[kani::unwind(44)]
+#[kani::stub(std::time::Instant::now, now_stub)]
+fn vc05_rtp_flip_ts_sha1_32() { forged_rtp::<18, 6>(SrtpProfile::Aes128Sha1_32); }
+
+// @h name=vc05_rtp_flip_ssrc_gcm tier=thorough timeout=1500
+// @fn SrtpContext::unprotect, SrtpPacket::parse, RtpHeader::parse, constant_time_eq
+// @stub std::time::Instant::now -> fixed instant
+// @bound AeadAes128Gcm; genuine 30-byte packet (12 header + 2 payload + tag) with symbolic key/salt/fields and symbolic shared (roc, seq) history; forgery = byte 10 (SSRC (part of the nonce and of the AAD)) XOR a symbolic non-zero value
+// @oracle the forgery is rejected (parse error or authentication failure); (roc, last seq, SRTCP index) are bit-identical before/after. Ideal MAC model: a different MAC input gives a different tag, so acceptance means the altered byte did not reach the MAC / AEAD input or the verdict was ignored
+#[kani::proof]
+#[kani::unwind(52)]
+#[kani::stub(std::time::Instant::now, now_stub)]
+fn vc05_rtp_flip_ssrc_gcm() { forged_rtp::<30, 10>(SrtpProfile::AeadAes128Gcm); }
+
+// @h name=vc05_rtp_flip_tag_sha1_80 tier=thorough timeout=1500
+// @fn SrtpContext::unprotect, SrtpPacket::parse, RtpHeader::parse, constant_time_eq
+// @stub std::time::Instant::now -> fixed instant
+// @bound Aes128Sha1_80; genuine 24-byte packet (12 header + 2 payload + tag) with symbolic key/salt/fields and symbolic shared (roc, seq) history; forgery = byte 23 (last tag byte) XOR a symbolic non-zero value
+// @oracle the forgery is rejected (parse error or authentication failure); (roc, last seq, SRTCP index) are bit-identical before/after. Ideal MAC model: a different MAC input gives a different tag, so acceptance means the altered byte did not reach the MAC / AEAD input or the verdict was ignored
+#[kani::proof]
+#[kani::unwind(44)]
+#[kani::stub(std::time::Instant::now, now_stub)]
+fn vc05_rtp_flip_tag_sha1_80() { forged_rtp::<24, 23>(SrtpProfile::Aes128Sha1_80); }
+
+// @h name=vc05_rtp_flip_seqhi_gcm tier=thorough timeout=1500
+// @fn SrtpContext::unprotect, SrtpPacket::parse, RtpHeader::parse, constant_time_eq
+// @stub std::time::Instant::now -> fixed instant
+// @bound AeadAes128Gcm; genuine 30-byte packet (12 header + 2 payload + tag) with symbolic key/salt/fields and symbolic shared (roc, seq) history; forgery = byte 2 (sequence number, high byte) XOR a symbolic non-zero value
+// @oracle the forgery is rejected (parse error or authentication failure); (roc, last seq, SRTCP index) are bit-identical before/after. Ideal MAC model: a different MAC input gives a different tag, so acceptance means the altered byte did not reach the MAC / AEAD input or the verdict was ignored
+#[kani::proof]
+#[kani::unwind(52)]
+#[kani::stub(std::time::Instant::now, now_stub)]
+fn vc05_rtp_flip_seqhi_gcm() { forged_rtp::<30, 2>(SrtpProfile::AeadAes128Gcm); }
+
+// @h name=vc05_rtp_first_packet_forged tier=quick timeout=1500
+// @fn SrtpContext::unprotect, SrtpContext::estimate_roc
+// @stub std::time::Instant::now -> fixed instant
+// @bound AES_CM_128_HMAC_SHA1_80; receiver that has not seen any packet yet (no sequence history); the first packet it sees is a forgery: a genuine 24-byte packet with symbolic sequence number whose last tag byte is altered by a symbolic non-zero value
+// @oracle rejected, and the receiver still has no sequence history: (roc, last seq, SRTCP index) bit-identical (a forged first packet must not seed the rollover estimate; seeded change C05-A)
+#[kani::proof]
+#[kani::unwind(44)]
+#[kani::stub(std::time::Instant::now, now_stub)]
+fn vc05_rtp_first_packet_forged() {
+    let ssrc: u32 = kani::any();
+    let (mut tx, mut rx) = pair(SrtpProfile::Aes128Sha1_80, ssrc);
+    let pl: [u8; 2] = kani::any();
+    let p = RtpPacket::new(RtpHeader::new(96, kani::any(), kani::any(), ssrc), pl.to_vec());
+    let mut good = [0u8; 24];
+    assert!(tx.protect(&p, &mut good).is_ok());
+    let mut bad = good; let x: u8 = kani::any(); kani::assume(x != 0); bad[23] ^= x;
+    let before = (rx.rollover_counter, rx.last_sequence, rx.rtcp_index);
+    assert!(before.1.is_none());
+    let r = rx.unprotect(SrtpPacket::parse(BytesMut::from(&bad[..])).unwrap());
+    assert!(r.is_err(), "forged first packet accepted");
+    assert!((rx.rollover_counter, rx.last_sequence, rx.rtcp_index) == before, "a rejected first packet changed the receiver's index state");
+    kani::cover!(p.header.sequence_number == 40000, "far-ahead sequence number");
+    leak(r); leak(p); leak(tx); leak(rx);
+}
+
+// @h name=vc05_rtp_genuine_after_forgery tier=thorough timeout=1800
 // @fn SrtpContext::unprotect
 // @stub std::time::Instant::now -> fixed instant
-// @bound AES_CM_128_HMAC_SHA1_32; genuine packet truncated by 1..3 bytes
-// @oracle as vc05_rtp_flip_sha1_80
+// @bound AES_CM_128_HMAC_SHA1_32; forged copy with an altered tag byte, then the genuine packet
+// @oracle the forgery is rejected and the genuine packet is still accepted afterwards with the original payload
 #[kani::proof]
 #[kani::unwind(44)]
 #[kani::stub(std::time::Instant::now, now_stub)]
-fn vc05_rtp_truncate_sha1_32() { forged_rtp(SrtpProfile::Aes128Sha1_32, true, false); }
-
-// @h name=vc05_rtp_flip_byte0 tier=thorough timeout=1200
-// @fn SrtpContext::unprotect, RtpHeader::parse
-// @stub std::time::Instant::now -> fixed instant
-// @bound as vc05_rtp_flip_sha1_80 but the altered byte is byte 0 (version, padding, extension bit, CSRC count)
-// @oracle as vc05_rtp_flip_sha1_80
-#[kani::proof]
-#[kani::unwind(44)]
-#[kani::stub(std::time::Instant::now, now_stub)]
-fn vc05_rtp_flip_byte0() { forged_rtp(SrtpProfile::Aes128Sha1_80, false, true); }
+fn vc05_rtp_genuine_after_forgery() {
+    let ssrc: u32 = kani::any();
+    let (mut tx, mut rx) = pair(SrtpProfile::Aes128Sha1_32, ssrc);
+    let pl: [u8; 2] = kani::any();
+    let p = RtpPacket::new(RtpHeader::new(96, kani::any(), kani::any(), ssrc), pl.to_vec());
+    let mut good = [0u8; 18];
+    assert!(tx.protect(&p, &mut good).is_ok());
+    let mut bad = good; bad[17] ^= 1;
+    let r = rx.unprotect(SrtpPacket::parse(BytesMut::from(&bad[..])).unwrap());
+    assert!(r.is_err());
+    let q = rx.unprotect(SrtpPacket::parse(BytesMut::from(&good[..])).unwrap());
+    match &q { Ok(q) => assert!(q.payload.len() == 2 && q.payload[0] == pl[0] && q.payload[1] == pl[1]), Err(_) => assert!(false, "the genuine packet is no longer accepted after a forgery") }
+    kani::cover!(true, "reached");
+    leak(r); leak(q); leak(p); leak(tx); leak(rx);
+}
 
 fn forged_rtcp(profile: SrtpProfile) {
     let ssrc: u32 = kani::any();
